@@ -97,7 +97,23 @@ def run(tier="quick", seed=0):
         if abs(v[0]) + abs(v[1]) + abs(v[2]) != d or (v[0] - v[2], v[1] - v[2]) != (x, y):
             viol.append({"id": "meshv_%d_%d" % (x, y), "clause": "mesh_vector", "inputs": {"destination": (x, y)}})
         distinct.add(("m", x, y))
-    # concentric hexagons
+    # concentric hexagons.  FIRST (before any ring has been generated completely in this process): a consumer that stops
+    # part-way through ring r, then a complete call - what a call yields depends on its arguments only
+    for r in range(1, R + 1):
+        it = g.concentric_hexagons(r, (10, 10))
+        for _ in range(3 * r * (r - 1) + 2 + (r % 3)):      # centre + rings 1..r-1 + one to three chips of ring r
+            next(it, None)
+        del it
+        pts = list(g.concentric_hexagons(r, (-2, 7)))
+        want = {(x - 2, y + 7): d for (x, y), d in md.items() if d <= r}
+        ev += 1
+        ds = [want.get(p) for p in pts]
+        if len(pts) != len(set(pts)) or set(pts) != set(want) or any(a is None for a in ds) or ds != sorted(ds):
+            viol.append({"id": "hex_first_%d" % r, "clause": "concentric_hexagons",
+                         "why": "after a generator for radius %d was abandoned inside its last ring, concentric_hexagons(%d, (-2, 7)) yields %d chips (%d distinct), %d expected" % (
+                             r, r, len(pts), len(set(pts)), len(want)),
+                         "inputs": {"radius": r, "abandoned_inside_ring": r}})
+        distinct.add(("hexf", r))
     for r in range(0, R + 1):
         pts = list(g.concentric_hexagons(r, (2, -1)))
         want = {(x + 2, y - 1): d for (x, y), d in md.items() if d <= r}
@@ -106,6 +122,24 @@ def run(tier="quick", seed=0):
         if len(pts) != len(set(pts)) or set(pts) != set(want) or any(a is None for a in ds) or ds != sorted(ds):
             viol.append({"id": "hex_%d" % r, "clause": "concentric_hexagons", "inputs": {"radius": r}})
         distinct.add(("hex", r))
+    # ... also after generators that were abandoned part-way (a consumer that stops at the first chip it likes), from other
+    # centres and with other radii: what a call yields depends on its arguments only
+    for r in range(1, R + 1):
+        for stop_after in (1, 2, 3 * r * (r - 1) + 2, 3 * r * (r + 1)):
+            it = g.concentric_hexagons(r + 2, (10, 10))
+            for _ in range(stop_after):
+                next(it, None)
+            del it
+            pts = list(g.concentric_hexagons(r, (-2, 7)))
+            want = {(x - 2, y + 7): d for (x, y), d in md.items() if d <= r}
+            ev += 1
+            ds = [want.get(p) for p in pts]
+            if len(pts) != len(set(pts)) or set(pts) != set(want) or any(a is None for a in ds) or ds != sorted(ds):
+                viol.append({"id": "hex_after_%d_%d" % (r, stop_after), "clause": "concentric_hexagons",
+                             "why": "after a generator for radius %d was abandoned after %d chips, concentric_hexagons(%d, (-2, 7)) yields %d chips (%d distinct), %d expected" % (
+                                 r + 2, stop_after, r, len(pts), len(set(pts)), len(want)),
+                             "inputs": {"radius": r, "abandoned_radius": r + 2, "abandoned_after": stop_after}})
+            distinct.add(("hexh", r, stop_after))
     # links
     for l in Links:
         ev += 1
